@@ -70,10 +70,11 @@ CHECKS['C01'] = dict(
          'the attack test sqAttacked<wtm> (both colours) and inCheck equal the rules-of-chess spec on a fully symbolic board; the list helpers addMovesByMask/addPawnMovesByMask<wtm>/addPawnDoubleMovesByMask append exactly the moves of their mask '
          '(loop contracts, ghost move monitor); the generators pseudoLegalMoves<w/b> (list == the pseudo-legal moves under the FIDE movement rules incl. castling conditions, double step, en passant, promotions, each once), '
          'pseudoLegalCaptures<w/b> (list == captures, en-passant captures and queen/knight promotions) and checkEvasions<w/b> (target filter == capture the single checker or interpose; list == the evasion candidates) - each generator verified '
-         'as contiguous fragments that tile its body plus a composition group; pseudoLegalCapturesAndChecks<w/b> the same way for what is decided about it: only pseudo-legal moves, none twice, every capture / en-passant capture / queen-or-knight promotion present; thorough tier adds the piece sections of checkEvasions (15 min each) and givesCheck == playing the move and testing the opponent king (6-way case split, 10-36 min each).',
+         'as contiguous fragments that tile its body plus a composition group; pseudoLegalCapturesAndChecks<w/b> the same way for what is decided about it: only pseudo-legal moves, none twice, every capture / en-passant capture / queen-or-knight promotion present; the head of removeIllegal (in-check flag, king square, king rays); thorough tier adds the piece sections of checkEvasions (15 min each), givesCheck == playing the move and testing the opponent king (6-way case split, 10-36 min each) '
+         'and the per-move verdict of both loops of removeIllegal (king-ray shortcut == playing the move; 12 cases, 5-60 min each).',
     note=TRUST + 'Assumed contracts: BitBoard::rookAttacks/bishopAttacks return the ray sets (magic lookup tables not proved), '
          'MoveList::addMove appends its move (A-MAXMOVES: capacity 256 never exceeded). Composition groups abstract the spec functions as uninterpreted functions (DESIGN 13.7). '
-         'NOT decided: the legality filter (removeIllegal; isLegal: only the king-move cases of the 12-way split discharge, not claimed), hence "treated as legal == legal" is decided up to that filter; that pseudoLegalCapturesAndChecks contains every checking quiet move; FEN text layer. Counterexamples of the generator, givesCheck and inCheck groups are replayed on the real MoveGen (replay/movegen_replay).',
+         'NOT decided: isLegal (only some cases of the 12-way split discharge, not claimed); in removeIllegal the play-the-move branch is replaced by its specification and the list compaction is pinned text (DESIGN 13.11); that pseudoLegalCapturesAndChecks contains every checking quiet move; FEN text layer. Counterexamples of the generator, givesCheck and inCheck groups are replayed on the real MoveGen (replay/movegen_replay).',
     technique='CBMC function and loop contracts on extracted real code and tiled fragments (dfcc), ghost move monitor, composition with uninterpreted spec functions, SAT back end',
     design='4.1, 13.7')
 CHECKS['C04'] = dict(
